@@ -184,7 +184,7 @@ harnesses! {
     #[unwind(12)] fn send_plan_noatt_enobufs() { send_plan(0, 8, 1 << 26, 1 << 24) }
     // concrete shapes around a REFUSED FIRST FRAGMENT (cheap to decide and to replay): the retried header
     // packet must carry exactly the attachments plus one dedicated channel
-    #[unwind(12)] fn send_retry_first_single_att() { send_many(2, 3000, 8192, 0b11) }
+    #[unwind(12)] fn send_retry_first_single_att() { send_many(2, 3000, 8192, 0b1) }
     #[unwind(12)] fn send_retry_first_frag_att() { send_many(2, 9000, 8192, 0b1) }
     #[unwind(12)] fn send_retry_first_frag_noatt() { send_many(0, 9000, 8192, 0b101) }
     // quick-tier variants: <= 6 attempts, 4 mask bits, buffer size <= 1 MiB, length <= 4 MiB (same code paths; the
